@@ -1,13 +1,14 @@
 package props
 
 import (
-	"strconv"
-	"go/constant"
-	"os"
 	"go/ast"
+	"go/constant"
 	"go/token"
 	"go/types"
+	"golang.org/x/tools/go/packages"
+	"os"
 	"sort"
+	"strconv"
 	"strings"
 
 	"pdfverif/internal/core"
@@ -1060,4 +1061,87 @@ func liveDefs(env *core.ByteEnv, g *core.Graph, starts []*core.V, at *core.V, de
 		}
 	}
 	return out
+}
+
+// structFieldDomain returns the set of values (as source text of constants)
+// a struct field can have, for an expression X.f where every value of X's
+// struct type in the package is written as a composite literal and the field
+// is never assigned: the field values of all those literals.
+func structFieldDomain(c *core.Ctx, pkg *packages.Package, info *types.Info, e ast.Expr) (map[string]bool, bool) {
+	sel, ok := ast.Unparen(e).(*ast.SelectorExpr)
+	if !ok {
+		return nil, false
+	}
+	s := info.Selections[sel]
+	if s == nil || s.Kind() != types.FieldVal {
+		return nil, false
+	}
+	field := s.Obj().(*types.Var)
+	st, ok := s.Recv().Underlying().(*types.Struct)
+	if !ok {
+		if p, isPtr := s.Recv().Underlying().(*types.Pointer); isPtr {
+			st, ok = p.Elem().Underlying().(*types.Struct)
+		}
+		if !ok {
+			return nil, false
+		}
+	}
+	idx := -1
+	for i := 0; i < st.NumFields(); i++ {
+		if st.Field(i) == field {
+			idx = i
+		}
+	}
+	if idx < 0 {
+		return nil, false
+	}
+	dom := map[string]bool{}
+	okAll := true
+	for _, f := range pkg.Syntax {
+		if c.Prog.IsTestFile(f.Pos()) {
+			continue
+		}
+		ast.Inspect(f, func(n ast.Node) bool {
+			switch x := n.(type) {
+			case *ast.AssignStmt:
+				for _, l := range x.Lhs {
+					if ls, ok := ast.Unparen(l).(*ast.SelectorExpr); ok {
+						if sl := pkg.TypesInfo.Selections[ls]; sl != nil && sl.Obj() == field {
+							okAll = false // the field is assigned somewhere
+						}
+					}
+				}
+			case *ast.CompositeLit:
+				t := pkg.TypesInfo.TypeOf(x)
+				if t == nil {
+					return true
+				}
+				us, isStruct := t.Underlying().(*types.Struct)
+				if !isStruct || us != st {
+					return true
+				}
+				var val ast.Expr
+				for i, el := range x.Elts {
+					if kv, isKV := el.(*ast.KeyValueExpr); isKV {
+						if id, isID := kv.Key.(*ast.Ident); isID && id.Name == field.Name() {
+							val = kv.Value
+						}
+					} else if i == idx {
+						val = el
+					}
+				}
+				if val == nil {
+					dom["<zero>"] = true
+					return true
+				}
+				if tv, has := pkg.TypesInfo.Types[val]; !has || tv.Value == nil {
+					okAll = false
+					return true
+				}
+				dom[core.ExprStr(val)] = true
+			}
+			return true
+		})
+	}
+	return dom, okAll
 }
